@@ -36,17 +36,23 @@ META = {
         "Pyoda.C02.islPattern_base15", "Pyoda.C02.islPattern_base16", "Pyoda.C02.islPattern_indian", "Pyoda.C02.islPattern_habash",
         "Pyoda.C02.islamic_yearStart_matches", "Pyoda.C02.islamic_leap_matches", "Pyoda.C02.islamic_matches_reference",
         "Pyoda.C02.islamic_epochs", "Pyoda.C02.islamic_monthLength_matches",
+        "Pyoda.C02.refAgreeWith_sound", "Pyoda.C02.refAgree_sound", "Pyoda.C02.refLinear_hebrew",
+        "Pyoda.C02.refLinear_persianSimple", "Pyoda.C02.refLinear_persianArithmetic",
+        "Pyoda.C02.persianSimple_matches_reference", "Pyoda.C02.persianArithmetic_matches_reference",
+        "Pyoda.C02.hebrewScriptural_matches_reference", "Pyoda.C02.hebrewCivil_matches_reference",
     ],
     "trusted_base": [
         "the reference formulas are faithful transcriptions of the published algorithms (Reingold & Dershowitz 3rd ed.; "
         "CPython Lib/_pydatetime.py); two transcriptions (Lean, Python) are compared with each other through the code",
         "datetime.date (C implementation) agrees with Lib/_pydatetime.py",
+        "for Hebrew civil, Hebrew scriptural, Persian simple and Persian arithmetic (from 475) the theorems "
+        "*_matches_reference take the hypothesis refAgree n = true (model = reference for every year: start, leap flag, months, "
+        "every month length and month start), which is discharged by EVALUATION of the executable checker on the compiled driver "
+        "(op ref.agree, every run; Lean compiler trusted) together with the proved refAgree_sound; the two Hebrew theorems "
+        "additionally take wfCheck (cal.wf 4 / 5, evaluated likewise). ISO/Gregorian, Julian, Coptic and the 8 Islamic calendars "
+        "are proved symbolically and evaluated as well",
     ],
     "partial": [
-        "model = reference is PROVED for ISO/Gregorian (also vs CPython _ymd2ord and isoweekday), Julian, Coptic and the 8 tabular "
-        "Islamic calendars. For Hebrew civil/scriptural, Persian simple and Persian arithmetic (from 475) it is EVALUATED, not "
-        "proved: oracle 'model-vs-reference (driver evaluation)' compares every year row (start, length, leap flag, every month "
-        "length and month start) of the code model with the reference on the compiled driver, exhaustively in both tiers",
         "Persian arithmetic before year 475 is excluded by the property",
     ],
     "rule": "every year (start, length, leap flag, all month lengths and month starts) of the 16 arithmetic ordinals; ISO vs "
@@ -448,8 +454,45 @@ def model_vs_reference(ctx):
     ctx.check_cases("model-vs-reference (driver evaluation)", cases, lambda k: res[k], exhaustive=True)
 
 
+SYMBOLIC_AGREE = {0, 1, 2, 3, 9, 10, 11, 12, 13, 14, 15, 16}
+
+
+def _driver_eval(op):
+    try:
+        return op, common.model_eval([op], DRIVER)[0]
+    except common.InfraError as e:
+        return op, "infra:" + str(e)
+
+
+def finish_agree(ctx, async_res):
+    """`ref.agree k` for the 16 arithmetic ordinals and `cal.wf 4/5` (hypotheses of the evaluated theorems)."""
+    res = dict(async_res.get(timeout=600))
+    for op, r in res.items():
+        if r.startswith("infra:"):
+            raise common.InfraError(r[6:])
+    st = ctx.oracles.setdefault("ref-agree (driver evaluation of refAgree / wfCheck, all years)", {"cases": 0, "failures": 0, "exhaustive": True})
+    not_discharged = []
+    for op, r in sorted(res.items()):
+        st["cases"] += 1
+        ctx.evaluations += 1
+        if r == "1":
+            continue
+        c = int(op.split(" ")[1])
+        not_discharged.append(f"{op} ({IDS[c]})")
+        code_side = [f for f in ctx.failures if f.get("key", "").endswith(":" + tag(c))]
+        if code_side:
+            st["failures"] += 1
+            ctx.add_failure({"key": f"c02-ref-agree-fails:{tag(c)}",
+                             "what": f"{IDS[c]}: {op} evaluates to {r!r} and the code-side oracle reports {code_side[0]['key']}: {code_side[0]['what'][:200]}"},
+                            op=op, source="ref-agree")
+    ctx.note("ref_agree", {f"{op} [{IDS[int(op.split(' ')[1])]}]": r for op, r in sorted(res.items())})
+    ctx.note("agreement not discharged", not_discharged)
+    ctx.note("agreement discharged by", {IDS[c]: ("symbolic theorem + evaluation" if c in SYMBOLIC_AGREE else "evaluation of refAgree + refAgree_sound") for c in ARITH})
+
+
 def run(ctx):
     t0 = time.time()
+    agree_async = c01.get_pool(ctx).map_async(_driver_eval, [f"ref.agree {k}" for k in ARITH] + ["cal.wf 4", "cal.wf 5"], chunksize=1)
     model_vs_reference(ctx)
     ctx.note("t_model_vs_reference_s", round(time.time() - t0, 1))
     pcorrespond(ctx, "reference.years", chunks(gen_year_ops(), 1500), impl, oracle, neighbours, exhaustive=True)
@@ -465,9 +508,14 @@ def run(ctx):
         pcorrespond(ctx, "reference.iso-ymd-vs-stdlib", chunks(ops, 50000), impl, oracle, neighbours, exhaustive=True)
     else:
         pcorrespond(ctx, "reference.iso-vs-stdlib", chunks(gen_iso_ops(ctx), 5000), impl, oracle, neighbours)
+    finish_agree(ctx, agree_async)
     ctx.note("t_total_s", round(time.time() - t0, 1))
     ctx.note("processes", c01.nprocs(ctx))
 
 
 def replay_op(op, failure):
-    return oracle(op.split(" "))
+    t = op.split(" ")
+    if t[0] in ("ref.agree", "cal.wf"):
+        r = common.model_eval([op], DRIVER)[0]
+        return None if r == "1" else {"key": f"c02-ref-agree-fails:{tag(int(t[1]))}", "what": f"{IDS[int(t[1])]}: {op} evaluates to {r!r}"}
+    return oracle(t)
